@@ -140,24 +140,34 @@ class FunctionCurveBase(PointCurveBase):
         estimation can be supplied."""
         point = np.array(point)
 
-        # a dense scan finds the right neighbourhood (a coarse one can end up in a wrong one) ...
+        # a dense scan finds candidate neighbourhoods: local minimums of sampled distances
+        # (the closest sample alone can belong to a wrong one where the curve runs fast or comes back to itself)
         params = np.linspace(self.bounds[0], self.bounds[1], num=101)
         distances = np.array([f.norm(self.function(t) - point) for t in params])
-        i_best = int(np.argmin(distances))
+        last = len(params) - 1
+        candidates = [
+            i
+            for i in range(len(params))
+            if (i == 0 or distances[i] <= distances[i - 1]) and (i == last or distances[i] <= distances[i + 1])
+        ]
+        candidates.sort(key=lambda i: distances[i])
 
-        # ... that is then refined between neighbouring samples; distance is not smooth
-        # at break points of piecewise curves so a gradient-free search is used
-        result = scipy.optimize.minimize_scalar(
-            lambda t: f.norm(self.function(t) - point),
-            bounds=(params[max(i_best - 1, 0)], params[min(i_best + 1, len(params) - 1)]),
-            method="bounded",
-            options={"xatol": 1e-12},
-        )
+        # each is refined between neighbouring samples; distance is not smooth at break points
+        # of piecewise curves so a gradient-free search is used
+        best_param, best_distance = float(params[candidates[0]]), distances[candidates[0]]
 
-        if result.fun < distances[i_best]:
-            return float(result.x)
+        for i in candidates[:5]:
+            result = scipy.optimize.minimize_scalar(
+                lambda t: f.norm(self.function(t) - point),
+                bounds=(params[max(i - 1, 0)], params[min(i + 1, last)]),
+                method="bounded",
+                options={"xatol": 1e-12},
+            )
 
-        return float(params[i_best])
+            if result.fun < best_distance:
+                best_param, best_distance = float(result.x), result.fun
+
+        return best_param
 
     def get_point(self, param: float) -> NPPointType:
         self._check_param(param)
